@@ -293,13 +293,19 @@ fn run_target(target: &str, rng: &mut Rng, allow_huge: bool) -> (String, J) {
                     }
                 }
                 _ => {
+                    let dbg = std::env::var("VERIF_DEBUG").is_ok();
+                    let t0 = std::time::Instant::now();
                     if let Ok(obj) = dicom_object::from_reader(&data[..]) {
+                        if dbg { eprintln!("[dump] input {} bytes read in {:?}", data.len(), t0.elapsed()); }
                         let mut sink = Vec::new();
                         let _ = dicom_dump::DumpOptions::new().color_mode(dicom_dump::ColorMode::Never).dump_file_to(&mut sink, &obj);
+                        if dbg { eprintln!("[dump] text dump {} bytes at {:?}", sink.len(), t0.elapsed()); }
                         sink.clear();
                         let _ = dicom_dump::DumpOptions::new().format(dicom_dump::DumpFormat::Json).dump_file_to(&mut sink, &obj);
+                        if dbg { eprintln!("[dump] json dump {} bytes at {:?}", sink.len(), t0.elapsed()); }
                         sink.clear();
                         let _ = dicom_dump::DumpOptions::new().width(20).no_text_limit(true).dump_object_to(&mut sink, &obj);
+                        if dbg { eprintln!("[dump] wide dump {} bytes at {:?}", sink.len(), t0.elapsed()); }
                     }
                 }
             }
@@ -553,6 +559,8 @@ pub fn run(cfg: &Cfg) -> Outcome {
         o.min_evaluations = 0; o.min_classes = 0;
         return o;
     }
+    let hang_candidates: std::sync::Mutex<Vec<(u64, String, String)>> = std::sync::Mutex::new(Vec::new());
+    let hang_candidates = &hang_candidates;
     // each worker owns the residue class idx ≡ w (mod nworkers)
     let results: Vec<Local> = std::thread::scope(|s| {
         let hs: Vec<_> = (0..nworkers).map(|w| {
@@ -594,7 +602,9 @@ pub fn run(cfg: &Cfg) -> Outcome {
                     let hang = std::path::Path::new(&format!("{}.hang", progress)).exists();
                     let gen = case_generator(cfg.seed, case, &target, allow_huge);
                     if hang {
-                        l.violation(format!("hang|{}|gen={}", target, gen), format!("{} exceeded the CPU budget of {} s on case {}", target, cpu_budget(), case), json!({"seed": cfg.seed, "stream": 5, "case": case, "target": target}));
+                        // not a verdict yet: with several workers zero-filling gigabytes at the same
+                        // time a slow case can exceed the budget; it is re-run alone afterwards
+                        hang_candidates.lock().unwrap().push((case, target.clone(), gen.clone()));
                     } else if let Some(sig) = out.status.signal() {
                         let kind = if stderr_tail.contains("overflowed its stack") { "stack-overflow".to_string() } else if stderr_tail.contains("memory allocation") { "alloc-failure".to_string() } else { format!("signal{}", sig) };
                         if sig == 9 {
@@ -618,10 +628,36 @@ pub fn run(cfg: &Cfg) -> Outcome {
         hs.into_iter().map(|h| h.join().unwrap_or_else(|_| Local::new())).collect()
     });
     for r in results { total_local.merge(r); }
+    // cases that exceeded the CPU budget: re-run each one alone (nothing else running) with twice
+    // the budget; only a case that exceeds it again is reported as a hang
+    let mut cands = hang_candidates.lock().unwrap().clone();
+    cands.sort();
+    cands.dedup();
+    for (case, target, gen) in cands {
+        let progress = format!("{}/confirm.progress", cfg.out);
+        let _ = std::fs::remove_file(format!("{}.hang", progress));
+        let mut cmd = std::process::Command::new(&exe);
+        cmd.env("GLIBC_TUNABLES", "glibc.malloc.hugetlb=1");
+        cmd.env("VERIF_C05_BUDGET", format!("{}", 2.0 * cpu_budget()));
+        cmd.args(["C05", "--worker", "--seed", &cfg.seed.to_string(), "--out", &cfg.out, "--result", "confirm_worker.json", "--from", &case.to_string(), "--to", &(case + 1).to_string(), "--step", "1", "--progress", &progress]);
+        if allow_huge { cmd.arg("--allow-huge"); }
+        let st = cmd.stderr(std::process::Stdio::null()).stdout(std::process::Stdio::null()).status();
+        let hung_again = std::path::Path::new(&format!("{}.hang", progress)).exists();
+        match st {
+            Ok(_) if hung_again => {
+                total_local.violation(format!("hang|{}|gen={}", target, gen), format!("{} exceeded the CPU budget of {} s on case {} (and {} s when re-run alone)", target, cpu_budget(), case, 2.0 * cpu_budget()), json!({"seed": cfg.seed, "stream": 5, "case": case, "target": target}));
+            }
+            Ok(_) => {
+                total_local.count("cases_slow_only_under_contention", 1);
+                total_local.note(format!("case {} ({}) exceeded the CPU budget next to other workers but not when re-run alone: not a hang", case, target));
+            }
+            Err(_) => total_local.note("could not spawn the confirmation worker"),
+        }
+    }
     if start.elapsed() >= wall { total_local.note("wall budget reached; remaining cases not run"); }
     let mut o = Outcome::new(
         total_local,
-        "seeded structure-aware mutation of valid files (G-DS in 4 syntaxes; images: native, encapsulated uncompressed, deflated frame, JPEG from the repository's encoders, hand-made RLE), data set streams, JSON documents, PDUs and strings; 14 entry-point targets (from_reader ± preamble, OpenFileOptions variants, FileMetaTable, DataSetReader × TS × flexible × value strategies × odd-length strategies, lazy reader with skip/into_owned, collector operations in random order, JSON from_str/from_slice/from_value, read_pdu strict/non-strict at 5 maxima, read_pdu_from_wire, pixel decoding whole/per frame/to_vec/to_dynamic_image, dump in text and JSON, tag/selector/date/time/range parsers, deep nesting, declared lengths near 2^32); each case in a worker subprocess on an 8 MiB-stack thread: panic = violation, abnormal process exit = violation attributed to the in-flight case, thread CPU time > 20 s = violation; SIGKILL and wall watchdog = inconclusive; class = (target, seed kind + mutator)",
+        "seeded structure-aware mutation of valid files (G-DS in 4 syntaxes; images: native, encapsulated uncompressed, deflated frame, JPEG from the repository's encoders, hand-made RLE), data set streams, JSON documents, PDUs and strings; 14 entry-point targets (from_reader ± preamble, OpenFileOptions variants, FileMetaTable, DataSetReader × TS × flexible × value strategies × odd-length strategies, lazy reader with skip/into_owned, collector operations in random order, JSON from_str/from_slice/from_value, read_pdu strict/non-strict at 5 maxima, read_pdu_from_wire, pixel decoding whole/per frame/to_vec/to_dynamic_image, dump in text and JSON, tag/selector/date/time/range parsers, deep nesting, declared lengths near 2^32); each case in a worker subprocess on an 8 MiB-stack thread: panic = violation, abnormal process exit = violation attributed to the in-flight case, thread CPU time over the budget (60 s, and 120 s again when the case is re-run alone) = violation; SIGKILL and wall watchdog = inconclusive; class = (target, seed kind + mutator)",
     );
     o.min_evaluations = 5_000;
     o.min_classes = 60;
